@@ -196,6 +196,8 @@ def adigest(a):
         return "l(" + ",".join(adigest(x) for x in a) + ")"
     if isinstance(a, dict):
         return "d(" + ",".join("%s:%s" % (k, adigest(a[k])) for k in sorted(a, key=str)) + ")"
+    if isinstance(a, np.ndarray) and a.dtype.kind == "O":
+        return "o(" + ",".join(adigest(x) for x in a.reshape(-1).tolist()) + ")"      # (the bytes of an object array are addresses)
     if isinstance(a, np.ndarray):
         h = hashlib.sha256()
         h.update(repr(enc_descr(a.dtype)).encode())
